@@ -181,8 +181,19 @@ pub fn cases_for(prop: &str, tier: &str, seed: u64, shard: (usize, usize)) -> (V
                     tmp.push(Case { id: format!("corpus-{}", id), family: "corpus".into(), schema: si, op: "validate13".into(), doc: Some(doc.to_string()), extra: vec![], note: String::new() });
                 }
             }
+            // documents on which several rules report at once (duplicate fragment names with different
+            // bodies, cycles, shared variables): half of them under the real default plan
+            let synth = pool.iter().position(|s| s.name == "synthetic").unwrap();
+            let mut defaults: std::collections::HashSet<String> = std::collections::HashSet::new();
+            for (i, d) in crate::families::shared_state_cases(&mut rng, budget(tier, 1600, 30000) / shard.1).into_iter().enumerate() {
+                let id = format!("ss{}x{}", shard.0, i);
+                if i % 2 == 0 {
+                    defaults.insert(id.clone());
+                }
+                tmp.push(Case { id, family: "shared-state".into(), schema: synth, op: "validate13".into(), doc: Some(d.print()), extra: vec![], note: String::new() });
+            }
             for mut c in tmp {
-                let mut plan = random_plan(&mut rng);
+                let mut plan = if defaults.contains(&c.id) { crate::op_validate::default_codes() } else { random_plan(&mut rng) };
                 if plan.is_empty() {
                     plan = vec!["KnownTypeNames"];
                 }
@@ -834,11 +845,17 @@ pub fn exhaustive_family(prop: &str, tier: &str, rng: &mut Rng, shard: (usize, u
                     docs.push((format!("literal-pairs:pos{}", pos), d.print()));
                 }
             }
+            for d in small_object_cases() {
+                docs.push(("small-objects".to_string(), d.print()));
+            }
             if prop != "C08" {
                 // context answers around arguments: every wrapper / unknown directive combination, and
                 // variables inside object literals at positions of every wrapper shape
                 for d in argument_slot_cases() {
                     docs.push(("argument-slots".to_string(), d.print()));
+                }
+                for d in argument_sibling_cases() {
+                    docs.push(("argument-siblings".to_string(), d.print()));
                 }
                 let vo = variable_object_cases();
                 let nvo = budget(tier, 800, vo.len());
@@ -916,10 +933,16 @@ pub fn exhaustive_family(prop: &str, tier: &str, rng: &mut Rng, shard: (usize, u
             for d in subscription_roots() {
                 docs.push(("subscription-roots".to_string(), d.print()));
             }
+            for d in argument_sibling_cases() {
+                docs.push(("argument-siblings".to_string(), d.print()));
+            }
         }
         "C09" => {
             for d in argument_slot_cases() {
                 docs.push(("argument-slots".to_string(), d.print()));
+            }
+            for d in argument_sibling_cases() {
+                docs.push(("argument-siblings".to_string(), d.print()));
             }
         }
         "C11" => {
@@ -948,6 +971,9 @@ pub fn exhaustive_family(prop: &str, tier: &str, rng: &mut Rng, shard: (usize, u
             }
         }
         "C10" => {
+            for d in directive_mix_cases(rng, budget(tier, 2500, 50000)) {
+                docs.push(("directive-mixes".to_string(), d.print()));
+            }
             for d in SYNTH_DIRECTIVES {
                 for loc in 0..7 {
                     for mult in 1..=3 {
